@@ -275,10 +275,24 @@ def wire_family(tier):
     rc, out = _run_cmds(cmds)
     if rc != 0:
         raise ToolError("wire rig failed: " + out[-2000:])
+    mc = None
+    if not os.environ.get("VERIF_SKIP_MC"):
+        mc = tlc_model_check("wire", "Wire_MC.tla", "Wire_MC.cfg", workers=4, timeout=900, xmx="4g", extra="")
+        # the format's limitation is part of the model: a lost token / a truncation is not always detected
+        for v in ("limit_delete", "limit_truncate"):
+            r = tlc_model_check("wire_" + v, "Wire_MC.tla", "Wire_MC_%s.cfg" % v, workers=2, timeout=600, xmx="2g", extra="")
+            if r.get("ok") or not r.get("violated"):
+                raise ToolError("Wire model unexpectedly satisfies %s" % v)
+        mc = dict(mc, name="Wire_MC round trip on 3698 values; DeletionDetected / TruncationDetected are violated in the model too (known finding)")
     verdicts = validate_shards("Wire_Trace.tla", "Wire_Trace.cfg", files, jobs=14, timeout=3000)
-    viols, cases = [], 0
+    viols, cases, divs = [], 0, []
     for v in verdicts:
         cases += v["n"]
+        if v.get("div"):
+            lines_d = open(v["shard"]).read().splitlines()
+            for x in v["div"]:
+                e = json.loads(lines_d[x["line"] - 1])
+                divs.append({"mon": x["mon"], "line": {k: e.get(k) for k in ("kind", "how", "idx", "args", "parsed")}})
         if not v["consumed"]:
             raise ToolError("Wire_Trace did not consume %s\n%s" % (v["shard"], v.get("tlc_tail", "")))
         lines = None
@@ -305,7 +319,8 @@ def wire_family(tier):
                 if e["kind"] == "plain" and len(samples) < 2 and o.get("peer") and o.get("local"):
                     samples.append({"args": e["args"]})
     res = {"tier": tier, "seed": sd, "wall_s": time.time() - t0, "cases": cases, "kinds": kinds, "nontrivial": nontrivial,
-           "violations": viols[:400], "violation_count": len(viols), "samples": samples, "mc": None}
+           "violations": viols[:400], "violation_count": len(viols), "samples": samples, "mc": mc, "divergences": divs[:50],
+           "l2_compared": sum(1 for f in files for line in open(f) if '"toks"' in line)}
     for f in files:
         os.remove(f)
     cache_put(key, res)
